@@ -705,136 +705,6 @@ fn c09_chain_unknown_filter() {
     std::mem::forget(s);
 }
 
-// ---- folding probes (not registered) ----
-fn burn(x: u8) -> u32 {
-    let mut s = 0u32;
-    let mut i = 0;
-    while i < 12 {
-        s = s.wrapping_mul(31).wrapping_add(x as u32 + i);
-        i += 1;
-    }
-    s
-}
-#[kani::proof]
-#[kani::unwind(14)]
-fn dbg_fold_vec_object() {
-    let x: u8 = kani::any();
-    let v: Vec<Object> = vec![Object::Name(vec![x, 1])];
-    let r = match &v[0] {
-        Object::Name(n) => n.len() as u32,
-        Object::Array(a) => burn(a.len() as u8) + burn(x) + burn(x ^ 1) + burn(x ^ 2),
-        _ => burn(x) + burn(x ^ 3) + burn(x ^ 4),
-    };
-    assert!(r == 2);
-    kani::cover!(true);
-    std::mem::forget(v);
-}
-#[kani::proof]
-#[kani::unwind(14)]
-#[kani::stub(std::string::String::from_utf8_lossy, lossy_stub)]
-fn dbg_fold_dict() {
-    let x: u8 = kani::any();
-    let mut d = Dictionary::new();
-    d.set("Filter", Object::Name(vec![x, 1]));
-    let r = match d.get(b"Filter") {
-        Ok(Object::Name(n)) => n.len() as u32,
-        Ok(Object::Array(a)) => burn(a.len() as u8) + burn(x) + burn(x ^ 1) + burn(x ^ 2),
-        _ => burn(x) + burn(x ^ 3) + burn(x ^ 4),
-    };
-    assert!(r == 2);
-    kani::cover!(true);
-    std::mem::forget(d);
-}
-#[kani::proof]
-#[kani::unwind(14)]
-#[kani::stub(std::string::String::from_utf8_lossy, lossy_stub)]
-fn dbg_fold_filters() {
-    let x: u8 = kani::any();
-    let mut d = Dictionary::new();
-    d.set("Filter", Object::Name(vec![x, 1]));
-    let s = Stream::new(d, vec![1, 2]);
-    let f = s.filters();
-    assert!(matches!(&f, Ok(v) if v.len() == 1));
-    kani::cover!(true);
-    std::mem::forget(f);
-    std::mem::forget(s);
-}
-#[kani::proof]
-#[kani::unwind(14)]
-#[kani::stub(std::string::String::from_utf8_lossy, lossy_stub)]
-fn dbg_fold_stream_get() {
-    let x: u8 = kani::any();
-    let mut d = Dictionary::new();
-    d.set("Filter", Object::Name(vec![x, 1]));
-    let s = Stream::new(d, vec![1, 2]);
-    let r = match s.dict.get(b"Filter") {
-        Ok(Object::Name(n)) => n.len() as u32,
-        _ => burn(x) + burn(x ^ 3) + burn(x ^ 4),
-    };
-    assert!(r == 2);
-    kani::cover!(true);
-    std::mem::forget(s);
-}
-#[kani::proof]
-#[kani::unwind(14)]
-#[kani::stub(std::string::String::from_utf8_lossy, lossy_stub)]
-fn dbg_fold_as_name() {
-    let x: u8 = kani::any();
-    let mut d = Dictionary::new();
-    d.set("Filter", Object::Name(vec![x, 1]));
-    let f = d.get(b"Filter");
-    let r = match f {
-        Ok(o) => {
-            if let Ok(name) = o.as_name() {
-                name.len() as u32
-            } else {
-                99
-            }
-        }
-        Err(_) => 98,
-    };
-    assert!(r == 2);
-    kani::cover!(true);
-    std::mem::forget(d);
-}
-#[kani::proof]
-#[kani::unwind(14)]
-#[kani::stub(std::string::String::from_utf8_lossy, lossy_stub)]
-fn dbg_fold_as_name_vec() {
-    let x: u8 = kani::any();
-    let mut d = Dictionary::new();
-    d.set("Filter", Object::Name(vec![x, 1]));
-    let f = d.get(b"Filter");
-    let r: Result<Vec<&[u8]>> = match f {
-        Ok(o) => {
-            if let Ok(name) = o.as_name() {
-                Ok(vec![name])
-            } else {
-                Err(Error::Unimplemented("x"))
-            }
-        }
-        Err(e) => Err(e),
-    };
-    assert!(matches!(&r, Ok(v) if v.len() == 1));
-    kani::cover!(true);
-    std::mem::forget(r);
-    std::mem::forget(d);
-}
-#[kani::proof]
-#[kani::unwind(4)]
-#[kani::stub(std::string::String::from_utf8_lossy, lossy_stub)]
-fn dbg_fold_filters_concrete() {
-    let x: u8 = kani::any();
-    let mut d = Dictionary::new();
-    d.set("Filter", Object::Name(b"FlateDecode".to_vec()));
-    let s = Stream::new(d, vec![x, 2]);
-    let f = s.filters();
-    assert!(matches!(&f, Ok(v) if v.len() == 1));
-    kani::cover!(true);
-    std::mem::forget(f);
-    std::mem::forget(s);
-}
-
 // ---- Stream::decompress bookkeeping with the decoding itself stubbed out --------------------------
 fn stub_decompressed_content(_s: &Stream) -> Result<Vec<u8>> {
     Ok(vec![0xAA, 0xBB])
